@@ -47,7 +47,7 @@ def strategy(tier, phase):
 
     from vlib import protogen
 
-    return st.fixed_dictionaries({"gen": st.just(2), "tape": protogen.tape_strategy(400 if tier == "quick" else 900), "entry": st.integers(0, 3),
+    return st.fixed_dictionaries({"gen": st.sampled_from([2, 3, 3]), "tape": protogen.tape_strategy(400 if tier == "quick" else 900), "entry": st.integers(0, 3),
                                   "irv": st.sampled_from([0, 0, 10, 11, 13, 3, 8, 9])})
 
 
